@@ -162,7 +162,7 @@ def wbs_spec(draw, max_tasks=8, min_tasks=0, hier_cycles=False, min_start=True, 
         else:
             p = draw(st.one_of(st.none(), st.sampled_from(ids[:k])))
         parent[tid] = p
-        est = draw(st.one_of(st.none(), st.integers(0, 30), st.integers(1, 9), st.integers(1, 9), st.integers(8, 20),
+        est = draw(st.one_of(st.none(), st.integers(0, 30), st.integers(1, 9), st.integers(1, 9), st.integers(8, 20), st.integers(25, 90),
                              st.sampled_from(est_pool or EST_POOL), st.sampled_from(est_pool or EST_POOL)))
         spent = draw(st.one_of(st.none(), st.none(), st.none(), st.integers(0, 30), st.integers(0, 3), st.sampled_from([0.5, 0.1, 3.75])))
         tasks.append(dict(id=tid, name='T%d' % tid, parent=p, resource=draw(st.sampled_from(palette)),
@@ -249,11 +249,25 @@ def build(spec, wbs_kwargs=None):
     from pjplan import Task, WBS
     w = WBS(**(wbs_kwargs or {}))
     objs = {}
-    for t in spec['tasks']:
+    Calc = calc_task_class() if spec.get('subclass') else None
+    for k, t in enumerate(spec['tasks']):
         kw = dict(resource=t.get('resource'), estimate=t.get('estimate'), spent=t.get('spent'),
                   milestone=t.get('milestone', False), start=dt(t.get('start')), end=dt(t.get('end')),
                   min_start=dt(t.get('min_start')))
         kw.update(t.get('custom') or {})
+        if Calc is not None and k % 2 == 0:
+            # a user subclass of Task: `estimate` and `spent` are computed by the subclass (three-point estimate, work log);
+            # the fields of the base class stay empty.  The public properties are what every reader must use.
+            kw['points'] = None if kw['estimate'] is None else (kw['estimate'],) * 3
+            kw['work_log'] = None if kw['spent'] is None else [kw['spent'], 0]
+            kw['estimate'] = kw['spent'] = None
+            o = Calc(t['id'], t.get('name') if 'name' in t else 'T%s' % t['id'], **kw)
+            objs[t['id']] = o
+            if t['parent'] is None:
+                w.roots.append(o)
+            else:
+                objs[t['parent']].children.append(o)
+            continue
         o = Task(t['id'], t.get('name') if 'name' in t else 'T%s' % t['id'], **kw)
         objs[t['id']] = o
         if t['parent'] is None:
@@ -266,9 +280,40 @@ def build(spec, wbs_kwargs=None):
     for e in spec.get('ext', []):
         x = Task(e['id'], 'X%s' % e['id'], start=dt(e.get('start')), end=dt(e.get('end')))
         ext[e['id']] = x
+        if e.get('in_wbs'):
+            # the outside predecessor is a member of another project (it keeps its WBS alive through Task.wbs)
+            WBS().roots.append(x)
         for v in e.get('succ', []):
             objs[v].predecessors.append(x)
     return w, objs, ext
+
+
+_CALC = {}
+
+
+def calc_task_class():
+    from pjplan import Task
+    if 'cls' not in _CALC or _CALC['base'] is not Task:
+        class CalcTask(Task):
+            @property
+            def estimate(self):
+                p = self.__dict__.get('points')
+                return None if not p else (p[0] + 4 * p[1] + p[2]) / 6 if p[0] != p[1] else p[0]
+
+            @estimate.setter
+            def estimate(self, v):
+                pass
+
+            @property
+            def spent(self):
+                w = self.__dict__.get('work_log')
+                return None if w is None else sum(w)
+
+            @spent.setter
+            def spent(self, v):
+                pass
+        _CALC['cls'], _CALC['base'] = CalcTask, Task
+    return _CALC['cls']
 
 
 # ------------------------------------------------------------------------------ calendars / resources
@@ -283,7 +328,7 @@ def calendar_spec(draw, dead=False, backward=False, tod=False):
     if dead:
         kinds = ['empty_direct', 'zero_weekly', 'zero_fixed', 'ended', 'late_start', 'zero_scaled', 'scarce_direct', 'scarce_direct']
     kind = draw(st.sampled_from(kinds))
-    units = draw(st.sampled_from([8, 8, 6, 1, 0.5, 2.5, 7.5, 24]))
+    units = draw(st.sampled_from([8, 8, 6, 1, 0.5, 2.5, 7.5, 24, 40, 100]))
     days = sorted(draw(st.sets(st.integers(0, 6), min_size=1)))
     if kind == 'bounded_tod':
         return ['bounded_tod', days, units, draw(st.integers(-5, 38)), draw(st.sampled_from([9, 13, 23])), draw(st.one_of(st.none(), st.integers(5, 45)))]
@@ -448,8 +493,13 @@ def make_resources(rs, handles=None, wrap=False):
                     super().__init__(inner.name)
                     self.inner = inner
                     self.taskdep = taskdep
+                    self.boom = None        # countdown to a failure of the user's own code (sched.failed_run)
 
                 def get_available_units(self, date, task=None):
+                    if self.boom is not None:
+                        self.boom -= 1
+                        if self.boom < 0:
+                            raise OSError('the crew roster is unreachable')
                     if self.taskdep and task is not None and isinstance(task.id, int) and \
                             datetime(date.year, date.month, date.day) < BASE + timedelta(days=3 + task.id % 3):
                         return 0
